@@ -3,7 +3,7 @@ import os
 import struct
 
 import paramiko
-from paramiko import AUTH_SUCCESSFUL
+from paramiko import AUTH_PARTIALLY_SUCCESSFUL, AUTH_SUCCESSFUL
 from paramiko.message import Message
 
 from vf import attacker, core, kexlab, keys, pair, sshsig, tap
@@ -374,14 +374,21 @@ def raw_signer(pkey):
     return lambda data, actual, label=None: sshsig.ed25519_sign(pkey._signing_key, data, label)
 
 
-def server_case(ctx, desc, declared, keyblob, sign, expect_name, disabled, kex, shape, sample, positive=False):
+def server_case(ctx, desc, declared, keyblob, sign, expect_name, disabled, kex, shape, sample, positive=False,
+                callback="success"):
     """One connection, one hostile (or control) publickey request.
     shape: 'direct' | 'query-first' (PK query without signature first) | 'after-failure' (a failed password
     attempt first)."""
     rng = ctx.rng
     rec = tap.Recorder()
-    srv = pair.LogServer(rec, policy={"check_auth_publickey": AUTH_SUCCESSFUL})
-    fp = ("server", declared, expect_name, desc["kind"], tuple(sorted(disabled)), kex, shape)
+    if callback == "partial":
+        # multi-factor server: the key is only the first factor
+        srv = pair.LogServer(rec, policy={"check_auth_publickey": AUTH_PARTIALLY_SUCCESSFUL,
+                                          "get_allowed_auths": "password"})
+    else:
+        srv = pair.LogServer(rec, policy={"check_auth_publickey": AUTH_SUCCESSFUL})
+    desc = dict(desc, callback=callback)
+    fp = ("server", declared, expect_name, desc["kind"], tuple(sorted(disabled)), kex, shape, callback)
     a = attacker.Attacker("client", rng=rng, recorder=rec, victim_server=srv,
                           victim_kw=dict(disabled_algorithms={"pubkeys": list(disabled)}))
     a.att.get_security_options().kex = [kex]
@@ -434,7 +441,13 @@ def server_case(ctx, desc, declared, keyblob, sign, expect_name, disabled, kex, 
         ctx.case(fp, sample=dict(desc, side="server", declared=declared, signature_names=name, disabled=sorted(disabled),
                                  kex=kex, shape=shape) if sample else None)
         ctx.count("server.requests_judged")
-        success = 52 in got
+        # "accepted" = USERAUTH_SUCCESS, or USERAUTH_FAILURE with partial_success = true (the request counted as a
+        # passed factor)
+        partial_ok = any(e["type"] == 51 and e["payload"][-1:] == b"\x01" for e in a.victim_msgs("out", (51,), since))
+        success = 52 in got or partial_ok
+        psfx = " (application returned partial success)" if callback == "partial" else ""
+        if callback == "partial":
+            ctx.count("server.partial_callback.requests_judged")
         wit = dict(case=desc, declared=declared, signature_names=name, disabled=sorted(disabled), kex=kex, shape=shape,
                    server_replies=got, authenticated=a.victim.is_authenticated())
         mismatch = name != base_alg(declared)
@@ -447,12 +460,14 @@ def server_case(ctx, desc, declared, keyblob, sign, expect_name, disabled, kex, 
             if success or a.victim.is_authenticated():
                 real = blob_alg(keyblob)
                 ctx.violation("server sent USERAUTH_SUCCESS for a publickey request whose key blob is not of the declared "
-                              "algorithm (%s)%s" % (mechanism(declared, real),
-                                                    " with that algorithm disabled" if real in disabled else ""),
+                              "algorithm (%s)%s%s" % (mechanism(declared, real),
+                                                      " with that algorithm disabled" if real in disabled else "", psfx),
                               "request declared %s and carried a %s key; signature made by that key, labelled %s: "
                               "authenticated" % (declared, real, name), wit)
             else:
                 ctx.count("server.hostile_requests_rejected")
+                if callback == "partial":
+                    ctx.count("server.partial_callback.hostile_requests_rejected")
         elif mismatch or dis:
             ctx.count("server.hostile_requests_judged")
             if success or a.victim.is_authenticated():
@@ -461,13 +476,20 @@ def server_case(ctx, desc, declared, keyblob, sign, expect_name, disabled, kex, 
                         mechanism(declared, name), " with that algorithm disabled" if name in disabled else "")
                 else:
                     sigtxt = "server sent USERAUTH_SUCCESS for a publickey algorithm it has disabled"
+                sigtxt += psfx
                 ctx.violation(sigtxt, "request declared %s, signature blob names %s%s: authenticated"
                               % (declared, name, " (disabled)" if dis else ""), wit)
             else:
                 ctx.count("server.hostile_requests_rejected")
+                if callback == "partial":
+                    ctx.count("server.partial_callback.hostile_requests_rejected")
         else:
             if success:
                 ctx.count("server.positive_controls_accepted")
+                if callback == "partial":
+                    ctx.count("server.partial_callback.positive_controls_accepted")
+                    if not partial_ok:
+                        ctx.inconclusive("partial-success callback produced a full USERAUTH_SUCCESS: %r" % wit)
             else:
                 ctx.inconclusive("positive control rejected by the server: %r" % wit)
     finally:
@@ -519,7 +541,7 @@ def server_cases():
     return out
 
 
-def run_server_case(ctx, c, kex, shape, sample):
+def run_server_case(ctx, c, kex, shape, sample, callback="success"):
     kind, D, A, disabled = c["kind"], c["D"], c["A"], c["disabled"]
     desc = dict(kind=kind, declared=D, signed_as=A)
     if base_alg(D) in disabled:
@@ -544,9 +566,9 @@ def run_server_case(ctx, c, kex, shape, sample):
         else:
             sign = lambda data: signer(data, A if family(A) == "rsa" else None)
     positive = kind == "honest" or (kind == "rsa" and A == base_alg(D) and A not in disabled)
-    r = server_case(ctx, desc, D, blob, sign, A, disabled, kex, shape, sample, positive=positive)
+    r = server_case(ctx, desc, D, blob, sign, A, disabled, kex, shape, sample, positive=positive, callback=callback)
     if r == "retry-direct":
-        server_case(ctx, desc, D, blob, sign, A, disabled, kex, "direct", sample, positive=positive)
+        server_case(ctx, desc, D, blob, sign, A, disabled, kex, "direct", sample, positive=positive, callback=callback)
 
 
 # ---- server side, several publickey requests on one connection ------------------------------------------
@@ -754,6 +776,18 @@ def run(ctx):
             shape = ("direct", "query-first", "after-failure")[(i + rnd + ctx.seed) % 3]
             run_server_case(ctx, c, kex, shape, sample=nsamp["s"] < 2)
             nsamp["s"] += 1
+        # the same matrix with a multi-factor application (callback result = partial success); quick: the
+        # substitution kinds completely, the rest on alternating cases
+        for i, c in enumerate(sc):
+            idx += 1
+            if not ctx.mine(idx):
+                continue
+            if ctx.quick and c["kind"] not in ("ecdsa-curve", "blob", "honest") and not (
+                    c["kind"] == "rsa" and (i + ctx.seed + rnd) % 2 == 0):
+                continue
+            kex = CHEAP_KEX[(i + rnd + 1 + ctx.seed) % len(CHEAP_KEX)]
+            shape = ("direct", "query-first", "after-failure")[(i + rnd + 1 + ctx.seed) % 3]
+            run_server_case(ctx, c, kex, shape, sample=False, callback="partial")
     ms = multi_sequences(ctx)
     for i, (dis, seq) in enumerate(ms):
         idx += 1
@@ -764,6 +798,9 @@ def run(ctx):
     ctx.require("server.multi_request_sessions", 60)
     ctx.require("server.requests_after_a_prior_request_for_the_same_key", 40)
     ctx.require("server.multi_positive_controls_accepted", 10)
+    ctx.require("server.partial_callback.requests_judged", 50)
+    ctx.require("server.partial_callback.hostile_requests_rejected", 35)
+    ctx.require("server.partial_callback.positive_controls_accepted", 5)
     ctx.require("client.acceptable_substitute_judged", 10)
     ctx.require("client.acceptable_substitute_judged.plain", 5)
     ctx.require("client.acceptable_substitute_judged.cert", 5)
